@@ -178,7 +178,7 @@ def gen_file_session(rng, rel, max_tr=40, nrandom=15, mk=True):
                 yield from mk_events(rng, T + 86400 * 30 + 43200, offs, impls, findn=True)      # an ordinary time: fewer results in the same buffer
 
 
-POSIX_STRINGS = ["EST5EDT,M3.2.0,M11.1.0", "CET-1CEST,M3.5.0,M10.5.0/3", "AEST-10AEDT,M10.1.0,M4.1.0/3", "NZST-12NZDT,M9.5.0,M4.1.0/3", "UTC0", "<-03>3", "<+0530>-5:30",
+POSIX_STRINGS = ["<+0030>-0:30", "XXX-0:44:30", "<-0030>0:30", "AAA-0:30BBB-1:30,M3.2.0/0:30,M10.5.0/0:00:30", "EST5EDT,M3.2.0,M11.1.0", "CET-1CEST,M3.5.0,M10.5.0/3", "AEST-10AEDT,M10.1.0,M4.1.0/3", "NZST-12NZDT,M9.5.0,M4.1.0/3", "UTC0", "<-03>3", "<+0530>-5:30",
                  "IST-1GMT0,M10.5.0,M3.5.0/1", "EST5EDT,J60,J300", "EST5EDT,59,299/0", "PST8PDT,M3.2.0/2:30,M11.1.0/1:15:30", "HST10", "WART4WARST,J1/0,J365/24"]
 
 
@@ -215,7 +215,7 @@ def gen_string_session(rng, s):
 def rand_posix_string(rng):
     names = ["EST", "EDT", "CET", "CEST", "<-03>", "<+0530>", "ABCD", "PST", "PDT"]
     def off():
-        return rng.choice(["5", "-1", "8", "-10", "3:30", "-5:45", "0", "12", "-12", "4:30:15"])
+        return rng.choice(["5", "-1", "8", "-10", "3:30", "-5:45", "0", "12", "-12", "4:30:15", "-0:30", "0:45", "-0:00:30", "-0:44:30"])
     def day():
         k = rng.random()
         if k < 0.6:
